@@ -29,6 +29,7 @@ RULE = ("Generated: one asset of every class - SimpleContract, Contract, Transpo
         "on a zone-aware grid) the loaded one can, with the identical problem. Non-trivial: class other than the "
         "four covered by the suite (simple contract, storage, order book, structured), or zone-aware stamps, or "
         "array-valued parameters, or saved after a set-up. Distinct = distinct spec hash.")
+RULE += (" Zone-aware stamps carry pandas' default zone object or a zoneinfo.ZoneInfo; CHP declared without heat node (_no_heat); numpy scalars where the set-up accepts them (window as numpy dates, storage parameters as numpy numbers).")
 ASSUMPTIONS = ["'profile' (pd.Series) is not serialisable by design (NotImplemented for coarse profiles) and not generated",
                "problems compared exactly (same code path before and after the round trip)"]
 
